@@ -56,3 +56,35 @@ def firstHit {α β : Type} (l : List α) (p : α → Bool) (hit : α → β) (m
   | some x => hit x
   | none => miss
 end P0f
+
+namespace P0f
+/-- the fields of Scapy's dissected IPv4 header that `IP._from_ipv4` reads -/
+structure Ip4F where
+  version : Nat
+  ihl : Nat
+  tos : Nat
+  ident : Nat
+  evil : Bool
+  df : Bool
+  mf : Bool
+  frag : Nat
+  ttl : Nat
+
+/-- the fields of Scapy's dissected IPv6 header that `IP._from_ipv6` reads -/
+structure Ip6F where
+  version : Nat
+  tc : Nat
+  fl : Nat
+  hlim : Nat
+
+/-- the fields of Scapy's dissected TCP header that the quirk derivation of `TCP.from_packet` reads -/
+structure TcpF where
+  flags : Nat       -- 9 bits
+  seq : Nat
+  ack : Nat
+  urgptr : Nat
+  dataofs : Nat
+
+/-- `tcp.flags.X` for the flag with mask `m` -/
+def flagSet (flags m : Nat) : Bool := flags / m % 2 == 1
+end P0f
